@@ -13,7 +13,7 @@ from ..core import Stats, guarded, pmap
 from ..world import World
 from . import amounts as A
 
-FACTORS = ['i:1000', 'D:0.0254', 'F:1/7', 'F:22/7', 'i:12']
+FACTORS = ['i:1000', 'i:12', 'D:0.0254', 'F:1/7', 'F:22/7']
 
 
 # ---------------------------------------------------------------------------
